@@ -18,7 +18,9 @@ var poolDecs = []Val{dv("0.0"), dv("1.0"), dv("1.00"), dv("-1.0"), dv("0.5"), dv
 
 var poolStrs = []Val{sv(""), sv("a"), sv("abc"), sv("ABC"), sv("héllo"), sv("日本語"), sv("😀x"), sv("é"), sv("a b"), sv(" lead"), sv("O'Neil"), sv(`back\slash`),
 	sv("1"), sv("1.0"), sv("-5"), sv("+1"), sv("1e3"), sv("2e47483647"), sv("true"), sv("T"), sv("false"), sv("2020-01-01"), sv("2020-02-30"), sv("2020-01-01T10:00:00Z"), sv("10:00:00"), sv("24:00"),
-	sv("5 'mg'"), sv("5 days"), sv("5"), sv("abc.def"), sv("[a"), sv("(a+)+$"), sv("official"), sv("http://example.org/a")}
+	sv("5 'mg'"), sv("5 days"), sv("5"), sv("abc.def"), sv("[a"), sv("(a+)+$"), sv("official"), sv("http://example.org/a"),
+	// value-shaped strings written with digits and signs from outside ASCII (Unicode Nd, full-width forms)
+	sv("١٢٣"), sv("１２.５"), sv("-४२"), sv("1.٥"), sv("２０２０-０１-０１"), sv("１０:００"), sv("５ 'mg'"), sv("－5"), sv("+１"), sv("𝟙")}
 
 var poolBools = []Val{bv(true), bv(false)}
 
